@@ -247,3 +247,13 @@ Theorem C04_marshal_is_source : forall b,
   = match Bio.Model.Bed.write b with Ok bs => GoSem.Ret (bs, 0%Z) | _ => GoSem.Ret ([], 2%Z) end.
 Proof. exact ImpProofsG.imp_BED_MarshalText. Qed.
 Print Assumptions C04_marshal_is_source.
+
+(* ---- the round trip, about the translated source -------------------------------------------------------- *)
+From Bio.Proofs Require ImpProofsW.
+Theorem C04_roundtrip_is_source : forall b fuel, bed_ok b ->
+  exists w, ImpGen.imp_bed_BED_MarshalText (ImpProofsG.bed_of b) = GoSem.Ret (w, 0%Z) /\
+    ((length w + 2 < fuel)%nat ->
+     exists st, ImpGen.imp_bed_Reader fuel (GoSem.Stream w 1%Z None)
+                = GoSem.Ret (st, [ImpProofsL.bed_item (Rec (first_n b))])).
+Proof. exact ImpProofsW.bed_roundtrip_src. Qed.
+Print Assumptions C04_roundtrip_is_source.
